@@ -30,6 +30,40 @@ untouched consumers):
 * Wea members / metadata / Location  <-  `duplicate`, `filter_by_*`, ghi / direct horizontal / directional
   irradiance (asked repeatedly), `to_dict`, `to_file_string`, `write` (also failing).
 
+Round 4 (override gaps, aliasing / one-shot iterables, conventions, numeric edges, input shapes, rare branches):
+
+* sources WITH A PAST (`pre` chains of a build spec, `_past_chains`): every deriving operation is asked of
+  objects whose hidden `validated_a_period` flag is already set (validated before, derived from a continuous
+  one, culled), of objects derived from derived objects, converted / culled in place (datetimes kept as a
+  list), there and back between the mutable and immutable twin - on each of the ten concrete classes
+  (`_r4_cases`, rare kind `past`); a deriving step of a history that hands back a live object is a failure
+  (`result-is-live-object`); the correspondence generator asks flag-sensitive operations of flagged objects.
+* container types (`check_shape`, op `shape`): constructors, the `values` setter, `get_aligned_collection`
+  and `Wea.from_annual_values` receive the same data as list / tuple / deque / dict view / array / set /
+  generator / `iter` / `map` (values and datetimes independently): same report as with lists, the container
+  is unchanged by later edits of the object, the object is unchanged by later edits of the container, two
+  objects made from ONE container do not follow each other (incl. one list given twice to the Wea).
+  Containers handed to the constructors of a sweep case are watched during the whole case (`held`).
+* returned containers (`check_returned`, op `returned`): `values`, `datetimes`, `to_dict`, `header.to_dict`,
+  `group_by_*`, `datetime_strings`, `moys_dict`, period / data type dictionaries of every class, `to_dict` /
+  `hoys` / `datetimes` / `header` of Wea, EPW and Header are edited in place (deep) and asked again.
+* periods made from text (`AnalysisPeriod.from_string`, text numbers to the constructor, `repr` round trip; one-
+  and two-digit fields), reversed periods (December -> January) for all five classes, sub-hourly steps
+  2..12 with metadata, unicode / unsorted metadata keys, magnitudes 1e-300 .. 1e16 and -0.0, identity unit
+  conversions (to_si on C / K, to_ip on F, to_unit(own unit)) on every class; EPW.to_wea hours as tuple,
+  generator, map, iter, unsorted with duplicates.
+* branches of the anchored functions that the sweep counts (`ctx.count('branch:...')`, `_branches`):
+  `Header.metadata` setter `value or {}` (empty / non-empty); `_time_interval_operation` sub-hourly (new
+  header) / else (`header.duplicate`); `validate_analysis_period` x 5 classes x flag set / unset, reversed
+  period; continuous `filter_by_analysis_period` continuous slice / two slices (wrapped) / by-moys;
+  continuous `filter_by_moys` plain / reversed index; `to_unit`/`to_ip`/`to_si` identity / converted;
+  `get_aligned_collection` value list / number, mutable None / True / False, unit given / default;
+  `duplicate` / `to_immutable` / `to_mutable` from mutable / from immutable (tuple kept); arithmetic and
+  `compute_function_aligned` with a number / a collection, base / continuous override; `interpolate_holes`
+  continuous (duplicate) / discontinuous; EPW `to_wea` / `to_file_string` on SI / IP objects, succeeding /
+  refused (the `finally` branch).  Not reachable through the public API: the `analysis_period is None` arm of
+  `Header.__copy__` (the constructor refuses None).
+
 History layer: every deriving step of a history may be asked AGAIN later (`again` marker): as long as the
 objects it read were not edited by a successful step, the new answer must equal the answer given the first
 time (whatever was done to the first answer meanwhile); a refused step must leave every object as it was.
@@ -70,7 +104,11 @@ RULE = ('correspondence: random histories (1-3 source collections of the 5 class
         'from the public state, and re-asked derivations with the first answer; EPW histories on one object '
         '(SI/IP, 15 public calls succeeding and refused, sky temperature asked repeatedly); the same derived '
         'view asked repeatedly from one Wea / EPW / Header; a slice of all this in 3-4 fresh interpreters in '
-        'different orders (refused calls, immutable, metadata-free, IP, leap first); non-trivial = the step returned an object or edited one; distinct = distinct history '
+        'different orders (refused calls, immutable, metadata-free, IP, leap first); round 4: sources with a '
+        'past (validated flag set, derived from derived, edited in place) for every operation and class, '
+        'container types and one-shot iterables for every sequence argument, returned containers edited in '
+        'place, periods made from text, reversed periods, sub-hourly aggregation, identity conversions, '
+        'counted branches; non-trivial = the step returned an object or edited one; distinct = distinct history '
         'or (operation, class, mutability, mutator, side)')
 TRUSTED_BASE = [
     'hand model Model/Heap.lean of which cells each API operation allocates or aliases (tied by the '
@@ -161,18 +199,90 @@ def _dtype(name='Temperature'):
             'EnergyIntensity': EnergyIntensity, 'EnergyFlux': EnergyFlux}[name]()
 
 
-def build_obj(spec, values=None):
+VSHAPES = ['list', 'tuple', 'deque', 'dictvalues', 'array', 'set1', 'gen', 'iter', 'map']
+DSHAPES = ['list', 'tuple', 'gen', 'iter', 'map', 'dictkeys']
+ONE_SHOT = ('gen', 'iter', 'map')
+
+
+def shape_of(seq, shape):
+    """The same data in another container / as a one-shot iterable (stdlib only)."""
+    import array
+    import collections
+    seq = list(seq)
+    if shape == 'list':
+        return seq
+    if shape == 'tuple':
+        return tuple(seq)
+    if shape == 'deque':
+        return collections.deque(seq)
+    if shape == 'dictvalues':
+        return dict(enumerate(seq)).values()
+    if shape == 'dictkeys':                     # insertion order, not sorted order
+        return dict.fromkeys(seq).keys()
+    if shape == 'array':
+        return array.array('d', seq)
+    if shape == 'set1':                         # a set only when its order cannot matter
+        return set(seq) if len(set(seq)) == 1 and len(seq) == 1 else tuple(seq)
+    if shape == 'gen':
+        return (x for x in seq)
+    if shape == 'iter':
+        return iter(seq)
+    if shape == 'map':
+        return map(lambda x: x, seq)
+    raise ValueError(shape)
+
+
+def _ap_text(t):
+    """The text form read by AnalysisPeriod.from_string (one- and two-digit fields as they come)."""
+    return '%d/%d to %d/%d between %d and %d @%d%s' % (t[0], t[1], t[3], t[4], t[2], t[5], t[6], '*' if t[7] else '')
+
+
+def _mk_ap_any(t, how=None):
+    """how: None = numbers; 'string' = AnalysisPeriod.from_string; 'strargs' = the constructor fed text
+    numbers; 'repr' = through the repr of a period built from numbers."""
+    from ladybug.analysisperiod import AnalysisPeriod
+    if how == 'string':
+        return AnalysisPeriod.from_string(_ap_text(t))
+    if how == 'strargs':
+        return AnalysisPeriod(str(t[0]), str(t[1]), str(t[2]), str(t[3]), str(t[4]), str(t[5]), t[6], bool(t[7]))
+    if how == 'repr':
+        return AnalysisPeriod.from_string(repr(_mk_ap(t)))
+    return _mk_ap(t)
+
+
+def build_obj(spec, values=None, held=None):
     """A collection from a plain spec; every part (header, period, metadata dict, lists) is new.
-    `values`: a list object the caller holds, handed to the constructor as it is."""
+    `values`: a list object the caller holds, handed to the constructor as it is.
+    Optional spec keys (round 4): 'vshape' / 'dshape' = container type of the values / datetimes argument,
+    'aphow' = how the period of the header is made (numbers, text), 'pre' = steps applied to the new object
+    before it is used (the source is then an object with a past: validated flag set, derived from a
+    derived object, converted in place, ...).  `held`: a list that receives the containers handed in."""
     from ladybug.header import Header
     cls = _classes()[(spec['cls'], spec['mutable'])]
-    hdr = Header(_dtype(spec.get('dtype', 'Temperature')), spec['unit'], _mk_ap(spec['ap']),
+    hdr = Header(_dtype(spec.get('dtype', 'Temperature')), spec['unit'], _mk_ap_any(spec['ap'], spec.get('aphow')),
                  copy.deepcopy(spec['meta']))
     vals = list(spec['vals']) if values is None else values
+    if spec.get('vshape'):
+        vals = shape_of(vals, spec['vshape'])
+    if held is not None:
+        held.append(vals)
     if spec['cls'] == 'hc':
-        return cls(hdr, vals)
-    leap = bool(spec['ap'][7])
-    return cls(hdr, vals, [_dt_from_token(spec['cls'], t, leap) for t in spec['dts']])
+        c = cls(hdr, vals)
+    else:
+        leap = bool(spec['ap'][7])
+        dts = [_dt_from_token(spec['cls'], t, leap) for t in spec['dts']]
+        if spec.get('dshape'):
+            dts = shape_of(dts, spec['dshape'])
+        if held is not None:
+            held.append(dts)
+        c = cls(hdr, vals, dts)
+    for st in spec.get('pre', ()):
+        a = copy.deepcopy(st.get('args', {}))
+        if st['k'] == 'm':
+            apply_mutator(c, st['op'], a)
+        else:
+            c = apply_derive([c], 0, st['op'], a)[0]
+    return c
 
 
 def _mv(v):
@@ -374,7 +484,10 @@ def _epw_call(e, call, tmp):
     path = os.path.join(blocker, 'sub', 'x.' + ext) if bad == 'path' else os.path.join(tmp, 'x.' + ext)
     if name == 'to_wea':
         hoys = {'hoys-range': [3, 9000], 'hoys-neg': [5, -9000], 'hoys-type': [0, 'a'], 'hoys-float': [1.5],
-                'hoys-none-item': [2, None], 'hoys-empty': []}.get(bad, [0, 12, 8759] if bad == 'hoys' else None)
+                'hoys-none-item': [2, None], 'hoys-empty': [], 'hoys-tuple': (0, 12, 8759),
+                'hoys-unsorted-dup': [8759, 12, 12, 0],
+                'hoys-gen': (h for h in (0, 12, 8759)), 'hoys-map': map(int, ('0', '12', '8759')),
+                'hoys-iter': iter([0, 12, 8759])}.get(bad, [0, 12, 8759] if bad == 'hoys' else None)
         return e.to_wea(path, hoys) if hoys is not None else e.to_wea(path)
     if name in ('write', 'save', 'to_mos', 'to_ddy'):
         return getattr(e, name)(path)
@@ -386,7 +499,9 @@ def _epw_call(e, call, tmp):
 
 
 EPW_CALLS = ['to_wea', 'to_wea:hoys', 'to_wea:hoys-range', 'to_wea:hoys-neg', 'to_wea:hoys-type',
-             'to_wea:hoys-float', 'to_wea:hoys-none-item', 'to_wea:hoys-empty', 'to_wea:path', 'write:path',
+             'to_wea:hoys-float', 'to_wea:hoys-none-item', 'to_wea:hoys-empty', 'to_wea:hoys-tuple',
+             'to_wea:hoys-unsorted-dup', 'to_wea:hoys-gen', 'to_wea:hoys-map', 'to_wea:hoys-iter',
+             'to_wea:path', 'write:path',
              'save:path', 'to_file_string', 'to_mos:path', 'to_ddy:path', 'to_dict']
 
 
@@ -568,7 +683,7 @@ def gen_spec(rng, cls=None, mutable=None, hourly_days=None, energy=None):
         for k in rng.sample(['k1', 'k2', 'k3', 'type'], rng.randint(1, 3)):
             meta[k] = rng.choice([1, 7, 'zone', 'Energy', [1, 2], ['a']])
     if cls in ('hd', 'hc'):
-        ts = rng.choice([1, 1, 1, 2])
+        ts = rng.choice([1, 1, 1, 2, 2, 3, 4])
         d1 = rng.randint(1, 3)
         d2 = d1 if hourly_days == 1 or rng.random() < 0.7 else d1 + 1
         if cls == 'hc':
@@ -639,8 +754,16 @@ def gen_derive(rng, infos, malformed):
     """infos: per live object dict(cls, n, dts, ap, mutable, validated). Returns (on, op, args)."""
     colls = [j for j, o in enumerate(infos) if o['kind'] == 'coll']
     on = rng.choice(colls)
-    me = infos[on]
     op = rng.choice(DERIVE_OPS)
+    if rng.random() < 0.12:
+        # round 4: an operation whose subclass variants look at the hidden validated flag, asked of an
+        # object that carries the flag already (derived from a continuous one / validated before)
+        flagged = [j for j in colls if infos[j]['validated'] and infos[j]['cls'] != 'hc']
+        if flagged:
+            on = rng.choice(flagged)
+            op = rng.choice(['validate', 'validate', 'dup', 'to_immutable', 'to_mutable', 'cull', 'interp_holes',
+                             'agg', 'aligned', 'filter_keys'])
+    me = infos[on]
     if me['dtype'] not in BASE_UNIT:            # irradiance types of a Wea: no conversion / normalisation
         if op in CONV_OPS or op in ENERGY_OPS:
             return gen_derive(rng, infos, malformed)
@@ -738,7 +861,9 @@ def gen_derive(rng, infos, malformed):
 
 
 def gen_mutator(rng, infos, malformed):
-    colls = [j for j, o in enumerate(infos) if o['kind'] == 'coll']
+    colls = [j for j, o in enumerate(infos) if o['kind'] == 'coll' and o['n'] > 0] or \
+        [j for j, o in enumerate(infos) if o['kind'] == 'coll']
+    malformed = malformed or not infos[colls[0]]['n']
     on = rng.choice(colls)
     me = infos[on]
     op = rng.choice(MUTATORS)
@@ -774,7 +899,7 @@ def gen_mutator(rng, infos, malformed):
     elif op == 'cull_inplace':
         # a continuous collection culled to another timestep no longer matches its period: not generated
         # (nor is a collection emptied by culling: the code then leaves an object no constructor accepts)
-        okts = [t for t in (1, 1, 2) if any(d % (60 // t) == 0 for d in me['dts'])] or [4]
+        okts = [t for t in (1, 1, 2, 3, 4) if any(d % (60 // t) == 0 for d in me['dts'])] or [me['ap'][6]]
         a['ts'] = (me['ap'][6] if me['cls'] == 'hc' else rng.choice(okts)) if not malformed else 7
     return on, op, a
 
@@ -1636,14 +1761,18 @@ def check_derive(inp):
     leaves the other side's snapshot unchanged; immutable objects never change."""
     d = inp['derive']
 
+    held = []
+
     def fresh():
-        objs = [build_obj(s) for s in inp['build']]
+        del held[:]
+        objs = [build_obj(s, held=held) for s in inp['build']]
         a = copy.deepcopy(d['args'])
         return objs, a
 
     objs, a = fresh()
     sig = _derive_sig(inp, objs)
     before = [snapshot(o) for o in objs]
+    held_before = [_held_snap(x) for x in held]
     plain_before = copy.deepcopy(a)
     try:
         res = apply_derive(objs, d['on'], d['op'], a)
@@ -1660,6 +1789,9 @@ def check_derive(inp):
         if a.get(key) != plain_before[key]:
             return {'required': 'plain argument %s unchanged' % key, 'observed': repr(a.get(key))[:200],
                     'sig': dict(sig, side='plain-args')}
+    if [_held_snap(x) for x in held] != held_before:
+        return {'required': 'the containers handed to the constructors are unchanged by %s' % d['op'],
+                'observed': 'changed', 'sig': dict(sig, side='held-containers')}
     if '_list' in a:
         lst = a['_list']
         want = [objs[d['on']]] + ([objs[d['args']['c']]] if 'c' in d['args'] else
@@ -1702,7 +1834,12 @@ def check_derive(inp):
                 snap = [snapshot(o) for _, _, o in others]
                 tsnap = snapshot(target)
                 birth = [snapshot(r) for r in res]
+                hsnap = [_held_snap(x) for x in held]
                 outcome = _try_mut(target, op, ma)
+                if [_held_snap(x) for x in held] != hsnap:
+                    return {'required': 'the containers handed to the constructors are unchanged by %s on %s %d'
+                                        % (op, side, idx), 'observed': 'changed',
+                            'sig': dict(sig, side='held-containers', mutator=op)}
                 if side == 'result':
                     for key in list(plain_before):
                         if a.get(key) != plain_before[key]:
@@ -1880,6 +2017,15 @@ def check_history(inp):
                         'observed': 'differs in: %s%s' % (','.join(diff), ' (%s)' % got if isinstance(got, str) else ''),
                         'sig': {'step': st.get('op'), 'kind': 'd', 'fresh': True, 'changed': ','.join(diff)}}
         if st['k'] in DERIVE_KINDS and str(status).startswith('ok') and len(live) > n0:
+            # a deriving step hands out NEW objects, whatever the past of the object it is asked of
+            for o in live[n0:]:
+                if any(o is x for x in live[:n0]):
+                    k0 = [i for i, x in enumerate(live[:n0]) if x is o][0]
+                    return {'required': 'step %d (%s %s on %s) returns a new object' % (
+                                n, st['k'], st.get('op', st.get('what', '')), st.get('on')),
+                            'observed': 'live object %d itself' % k0,
+                            'sig': {'step': st.get('op', st.get('what', st['k'])), 'kind': st['k'],
+                                    'changed': 'result-is-live-object'}}
             reads = _step_reads(st)
             birth = [snapshot(o) for o in live[n0:]]
             first = asked.get(st.get('again'))
@@ -2085,6 +2231,23 @@ def check_misc(inp):
             return {'required': 'metadata of the source unchanged by an edit of the object read back from its '
                                 'to_dict(): %s' % before, 'observed': src_h.metadata, 'sig': sig}
         return None
+    if what == 'epw_dict_round_trip':
+        # EPW.from_dict(e.to_dict()) without JSON in between: a new EPW from an existing one
+        from ladybug.epw import EPW
+        e = EPW.from_missing_values()
+        e.metadata['source'] = 'station'
+        e.metadata['k2'] = [1, 2]
+        before = (json.dumps(e.metadata, sort_keys=True), _epw_digest(e))
+        e2 = EPW.from_dict(e.to_dict())
+        e2.metadata['source'] = 'edited'
+        e2.metadata['k2'].append(3)
+        e2.dry_bulb_temperature[0] = 55.5
+        e2.dry_bulb_temperature.header.metadata['edited'] = 1
+        after = (json.dumps(e.metadata, sort_keys=True), _epw_digest(e))
+        if after != before:
+            return {'required': 'EPW unchanged by edits of the EPW read back from its to_dict(): %s' % before[0],
+                    'observed': after[0], 'sig': sig}
+        return None
     if what == 'epw_call':
         # any public call on a real EPW (SI or IP), succeeding or refused: all 35 fields, the unit flag and
         # the metadata read as before
@@ -2274,7 +2437,202 @@ def check_misc(inp):
     raise ValueError(what)
 
 
+def _held_snap(x):
+    """What a container the caller handed in holds now (None for one-shot iterables: used up by design)."""
+    if isinstance(x, (list, tuple, set, frozenset)) or type(x).__name__ in ('deque', 'array', 'dict_values',
+                                                                            'dict_keys', 'range'):
+        return (type(x).__name__, tuple(sorted(x, key=repr)) if isinstance(x, (set, frozenset)) else tuple(x))
+    return None
+
+
+def _edit_container(x):
+    """Edit a container the caller holds, in place, where its type allows it. True when something was edited."""
+    name = type(x).__name__
+    try:
+        if name in ('list', 'deque', 'array'):
+            x[0] = -4321.0
+            x.append(-1234.0)
+            return True
+        if name == 'set':
+            x.add(-4321.0)
+            return True
+    except Exception:
+        pass
+    return False
+
+
+def check_shape(inp):
+    """Container-type independence and ownership: a collection built from / assigned / aligned to the same
+    data in any container the code accepts (list, tuple, deque, dict view, array, one-shot iterables)
+    reports the same as with a list; later edits of the collection leave the container as it was, later
+    edits of the container leave the collection as it was, two collections made from ONE container do not
+    follow each other."""
+    spec, via = inp['spec'], inp['via']
+    vshape, dshape = inp.get('vshape', 'list'), inp.get('dshape', 'list')
+    sig = {'what': 'shape', 'via': via, 'vshape': vshape, 'dshape': dshape, 'cls': spec['cls'],
+           'mutable': bool(spec['mutable'])}
+
+    def make(vs, ds, held, cont=None):
+        if via == 'ctor':
+            if cont is not None:
+                return build_obj(dict(spec, dshape=ds), values=cont, held=held)
+            return build_obj(dict(spec, vshape=vs, dshape=ds), held=held)
+        if via == 'wea_annual':
+            from ladybug.wea import Wea
+            from ladybug.location import Location
+            n = (8784 if spec['ap'][7] else 8760) * spec['ap'][6]
+            data = [float((i * 7) % 900) for i in range(n)]
+            c1 = shape_of(data, vs) if cont is None else cont
+            c2 = c1 if inp.get('same') else shape_of(data, vs)
+            held.extend([c1, c2])
+            return Wea.from_annual_values(Location('x', latitude=10), c1, c2, spec['ap'][6], bool(spec['ap'][7]))
+        base = build_obj(dict(spec, vals=[v + 1 for v in spec['vals']]))
+        if cont is None:
+            cont = shape_of(spec['vals'], vs)
+        held.append(cont)
+        if via == 'setter':
+            base.values = cont
+            return base
+        return base.get_aligned_collection(cont)
+
+    def snap(o):
+        return _wea_snap(o) if via == 'wea_annual' else snapshot(o)
+
+    try:
+        ref = snap(make('list', 'list', []))
+    except Exception:
+        return None                 # (the values setter of an immutable collection, ...): refused for lists too
+    held = []
+    try:
+        c = make(vshape, dshape, held)
+    except Exception:
+        return None                 # this container type is refused: nothing was built
+    if snap(c) != ref:
+        return {'required': '%s with values as %s / datetimes as %s reports the same as with lists' % (
+                    via, vshape, dshape), 'observed': 'differs', 'sig': dict(sig, side='container-type')}
+    hs = [_held_snap(x) for x in held]
+    tgt = c.direct_normal_irradiance if via == 'wea_annual' else c
+    other = snapshot(c.diffuse_horizontal_irradiance) if via == 'wea_annual' else None
+    for op, ma in (('set_item', {'i': 0, 'x': 999}), ('set_item', {'i': -1, 'x': 998}), ('set_values', None),
+                   ('conv_unit', {'u': 2 if via != 'wea_annual' else 3})):
+        _try_mut(tgt, op, ma)
+    if [_held_snap(x) for x in held] != hs:
+        return {'required': 'the container handed to %s is unchanged by later edits of the object' % via,
+                'observed': 'changed', 'sig': dict(sig, side='held-changed')}
+    if other is not None and snapshot(c.diffuse_horizontal_irradiance) != other:
+        return {'required': 'the diffuse collection is unchanged by edits of the direct one',
+                'observed': 'changed', 'sig': dict(sig, side='sibling-follows')}
+    held = []
+    c = make(vshape, dshape, held)
+    s0 = snap(c)
+    edited = [_edit_container(x) for x in held]
+    if any(edited) and snap(c) != s0:
+        return {'required': 'the object is unchanged by later edits of the container handed to %s' % via,
+                'observed': 'changed', 'sig': dict(sig, side='follows-container')}
+    if vshape not in ONE_SHOT and via != 'wea_annual':
+        cont = shape_of(spec['vals'], vshape)
+        c1, c2 = make(vshape, dshape, [], cont), make(vshape, dshape, [], cont)
+        s2 = snap(c2)
+        for op, ma in (('set_item', {'i': 0, 'x': 999}), ('set_values', None), ('conv_unit', {'u': 2})):
+            _try_mut(c1, op, ma)
+        if snap(c2) != s2:
+            return {'required': 'two objects made from ONE %s do not follow each other' % vshape,
+                    'observed': 'the second changed with the first', 'sig': dict(sig, side='two-from-one')}
+    return None
+
+
+def _deep_edit(x, depth=0):
+    """Edit every mutable container reachable from a returned value, in place."""
+    if depth > 4:
+        return
+    if isinstance(x, dict):
+        for v in list(x.values()):
+            _deep_edit(v, depth + 1)
+        x['__edited__'] = 1
+    elif isinstance(x, list):
+        for v in x[:3]:
+            _deep_edit(v, depth + 1)
+        if x and isinstance(x[0], (int, float)):
+            x[0] = -4321.5
+        x.append(-1234.5)
+    elif isinstance(x, tuple):
+        for v in x[:3]:
+            _deep_edit(v, depth + 1)
+
+
+RETURNED_GETTERS = ['values', 'datetimes', 'to_dict', 'header.to_dict', 'group_by_day', 'group_by_month',
+                    'group_by_month_per_hour', 'datetime_strings', 'header.analysis_period.to_dict',
+                    'header.data_type.to_dict', 'moys_dict']
+RETURNED_OTHER = [('wea', 'to_dict'), ('wea', 'hoys'), ('wea', 'datetimes'), ('wea', 'location.to_dict'),
+                  ('epw', 'to_dict'), ('epw', 'header'), ('epw', 'location.to_dict'),
+                  ('header', 'to_dict'), ('header', 'to_csv_strings')]
+
+
+def _getter(obj, path):
+    for part in path.split('.'):
+        obj = getattr(obj, part)
+        if callable(obj) and not part[0].isupper():
+            obj = obj()
+    return obj
+
+
+def check_returned(inp):
+    """Every container an object hands out (values, datetimes, dictionary exports, groups) is the caller's:
+    editing it in place leaves the object as it was and the same question gets the first answer again."""
+    from ladybug.header import Header
+    get = inp['get']
+    sig = {'what': 'returned', 'get': get}
+    if 'spec' in inp:
+        src = build_obj(inp['spec'])
+        snap = snapshot
+        sig.update(cls=inp['spec']['cls'], mutable=bool(inp['spec']['mutable']))
+    elif inp['obj'] == 'wea':
+        src, snap = _wea(), _wea_snap
+    elif inp['obj'] == 'epw':
+        from ladybug.epw import EPW
+        src = EPW.from_missing_values()
+        src.metadata['source'] = 'station'
+        src.metadata['k2'] = [1, 2]
+
+        def snap(e):
+            try:
+                head = tuple(e.header)
+            except Exception as ex:
+                head = 'raises ' + type(ex).__name__
+            return (_epw_digest(e), e.is_ip, json.dumps(e.metadata, sort_keys=True, default=str),
+                    str(e.location), head)
+    else:
+        src = Header(_dtype(), 'C', _mk_ap([1, 1, 0, 1, 1, 23, 1, 0]), {'k1': 1, 'k2': [1, 2]})
+
+        def snap(x):
+            return (x.unit, type(x.data_type).__name__, tuple(_ap_tokens(x.analysis_period)),
+                    json.dumps(x.metadata, sort_keys=True, default=str))
+    sig['obj'] = inp.get('obj', 'coll')
+    try:
+        first = _getter(src, get)
+    except AttributeError:
+        return None                 # this class does not have the method
+    before = snap(src)
+    pristine = copy.deepcopy(first)
+    _deep_edit(first)
+    if snap(src) != before:
+        return {'required': 'object unchanged by in-place edits of what %s returned' % get,
+                'observed': 'changed', 'sig': dict(sig, side='object-follows')}
+    second = _getter(src, get)
+    if second is first and isinstance(first, (list, dict)):
+        return {'required': '%s hands out a new container each time' % get, 'observed': 'the same object',
+                'sig': dict(sig, side='same-container')}
+    if second != pristine:
+        return {'required': '%s asked again (object untouched, first answer edited) answers as the first time'
+                            % get, 'observed': 'differs', 'sig': dict(sig, side='again-differs')}
+    return None
+
+
 def check_case(op, inp):
+    if op == 'shape':
+        return check_shape(inp)
+    if op == 'returned':
+        return check_returned(inp)
     if op == 'derive':
         return check_derive(inp)
     if op == 'history':
@@ -2375,7 +2733,54 @@ def _derive_args_bad(op, spec):
     return []
 
 
-RARE_KINDS = ['single', 'leap', 'ts', 'empty-meta', 'zeros']
+RARE_KINDS = ['single', 'leap', 'ts', 'empty-meta', 'zeros', 'wrap', 'aptext', 'unicode', 'extreme', 'past',
+              'shape']
+MDAYS = [31, 28, 31, 30, 31, 30, 31, 31, 30, 31, 30, 31]
+
+
+def _past_chains(cls, mutable, ts):
+    """Well-formed pasts of a source (steps applied after construction): hidden flags set, derived from a
+    derived object, converted / culled in place, there and back between the mutable and immutable twin."""
+    val, dup = {'k': 'd', 'op': 'validate', 'args': {}}, {'k': 'd', 'op': 'dup', 'args': {}}
+    imm, mut = {'k': 'd', 'op': 'to_immutable', 'args': {}}, {'k': 'd', 'op': 'to_mutable', 'args': {}}
+    allpass = {'k': 'd', 'op': 'filter_range', 'args': {'gt': -10 ** 9, 'lt': 10 ** 9, 'stmt': True}}
+    allpass2 = {'k': 'd', 'op': 'filter_pattern', 'args': {'mask': [True]}}
+    chains = [[val], [val, val], [dup], [allpass], [allpass2], [mut, imm], [imm, mut], [allpass, val]]
+    if cls in ('hd', 'hc'):
+        chains += [[{'k': 'd', 'op': 'cull', 'args': {'ts': ts}}], [{'k': 'd', 'op': 'cull', 'args': {'ts': ts}}, val]]
+    if cls == 'hc':
+        chains += [[{'k': 'd', 'op': 'to_disc', 'args': {}}], [{'k': 'd', 'op': 'to_disc', 'args': {}}, val],
+                   [{'k': 'd', 'op': 'filter_ap', 'args': {'ap': None}}]]
+    if mutable:
+        chains += [[{'k': 'm', 'op': 'conv_unit', 'args': {'u': 1}}], [{'k': 'm', 'op': 'conv_unit', 'args': {'u': 2}}, val],
+                   [val, {'k': 'm', 'op': 'set_item', 'args': {'i': 0, 'x': 7}}]]
+        if cls in ('hd', 'hc'):
+            chains += [[{'k': 'm', 'op': 'cull_inplace', 'args': {'ts': ts}}],
+                       [{'k': 'm', 'op': 'cull_inplace', 'args': {'ts': ts}}, val]]
+    else:
+        chains = [ch + [imm] for ch in chains]
+    return chains
+
+
+def _wrap_spec(rng, spec, cls):
+    """A period that runs through the year's end (December -> January)."""
+    if cls in ('hd', 'hc'):
+        ts = rng.choice([1, 1, 2]) if cls == 'hc' else 1
+        days = [(12, 31, 364), (1, 1, 0)]
+        h1, h2 = (0, 23) if cls == 'hc' else rng.choice([(0, 23), (6, 18)])
+        full = [d * 1440 + h * 60 + k * (60 // ts) for _, _, d in days for h in range(h1, h2 + 1) for k in range(ts)]
+        if cls == 'hd':
+            pick = sorted(rng.sample(range(len(full)), 7))
+            full = [full[i] for i in pick]
+        spec.update(ap=[12, 31, h1, 1, 1, h2, ts, 0], dts=full)
+    elif cls == 'daily':
+        spec.update(ap=[12, 30, 0, 1, 3, 23, 1, 0], dts=[364, 365, 1, 2, 3][rng.randrange(2):])
+    elif cls == 'monthly':
+        spec.update(ap=[11, 1, 0, 2, 28, 23, 1, 0], dts=[11, 12, 1, 2][rng.randrange(2):])
+    else:
+        spec.update(ap=[12, 1, 0, 1, 31, 23, 1, 0], dts=[120000, 121200, 122300, 10000, 10600])
+    spec['vals'] = [rng.randint(-5, 30) for _ in spec['dts']]
+    return spec
 
 
 def _rare_spec(rng, cls, mutable, kind):
@@ -2416,12 +2821,189 @@ def _rare_spec(rng, cls, mutable, kind):
             spec.update(ap=[1, 1, 0, 1, 1, 23, ts, 0],
                         dts=full if cls == 'hc' else sorted(rng.sample(full, 7)))
             spec['vals'] = [rng.randint(-5, 30) for _ in spec['dts']]
+    elif kind == 'wrap':
+        _wrap_spec(rng, spec, cls)
+    elif kind == 'aptext':
+        spec['aphow'] = rng.choice(['string', 'strargs', 'repr'])
+        if rng.random() < 0.5 and cls in ('hd', 'hc'):     # two-digit fields next to one-digit ones
+            d = rng.randint(10, 20)
+            ts = spec['ap'][6]
+            h1, h2 = (0, 23) if cls == 'hc' else (spec['ap'][2], spec['ap'][5])
+            full = [(_doy(10, d) - 1) * 1440 + h * 60 + k * (60 // ts) for h in range(h1, h2 + 1) for k in range(ts)]
+            spec.update(ap=[10, d, h1, 10, d, h2, ts, 0],
+                        dts=full if cls == 'hc' else sorted(rng.sample(full, min(6, len(full)))))
+            spec['vals'] = [rng.randint(-5, 30) for _ in spec['dts']]
+    elif kind == 'unicode':
+        spec['meta'] = {'k1': 'zon\u00e9 \u2460', 'k2': ['\u00fc', 'a b', ''], '\u043a\u043b\u044e\u0447': 1,
+                        'zb': 2, 'a': 3}         # (keys not in sorted order)
+    elif kind == 'extreme':
+        spec['vals'] = [rng.choice([1e-12, -1e-12, 1e16, -1e16, 0.5, 2.5, -0.5, -0.0, 1e-300, 123456789.125])
+                        for _ in spec['dts']]
+    elif kind == 'past':
+        ch = rng.choice(_past_chains(cls, mutable, spec['ap'][6]))
+        ch = copy.deepcopy(ch)
+        for st in ch:
+            if st['op'] == 'filter_ap':
+                st['args']['ap'] = list(spec['ap'])
+        spec['pre'] = ch
+    elif kind == 'shape':
+        spec['vshape'] = rng.choice(['tuple', 'deque', 'dictvalues', 'array', 'list'])
+        spec['dshape'] = rng.choice(DSHAPES)
     elif kind == 'empty-meta':
         spec['meta'] = {}
     elif kind == 'zeros':
         spec['vals'] = [0 for _ in spec['dts']]
         spec['meta'] = {'k1': 0, 'k2': []}
     return spec
+
+
+def _branches(op, args, spec):
+    """The branches of the anchored functions that a sweep case takes (read off the code; see the header)."""
+    cls, ts, out = spec['cls'], spec['ap'][6], []
+    pre = [st['op'] for st in spec.get('pre', ())]
+    wrapped = (spec['ap'][0], spec['ap'][1]) > (spec['ap'][3], spec['ap'][4])
+    if not spec['meta']:
+        out.append('header.metadata:empty(value or {})')
+    if wrapped:
+        out.append('period:wrapped/' + op)
+    if spec['ap'][7]:
+        out.append('period:leap/' + op)
+    if spec.get('aphow'):
+        out.append('period:from-text/' + spec['aphow'])
+    if pre:
+        out.append('source:with-a-past/' + '+'.join(pre))
+    if op == 'agg':
+        sub = cls in ('hd', 'hc') and ts != 1 and args['iv'] in ('daily', 'monthly')
+        out.append('_time_interval_operation:' + ('sub-hourly(new header)' if sub else 'header.duplicate'))
+    elif op == 'validate':
+        seen = cls == 'hc' or 'validate' in pre or (cls == 'hd' and ('cull' in pre or 'cull_inplace' in pre))
+        out.append('validate:' + ('flag-already-set' if seen else 'flag-unset') + '/' + cls)
+        if wrapped:
+            out.append('validate:reversed-period/' + cls)
+    elif op == 'filter_ap':
+        cont = cls == 'hc' and args['ap'][2] == 0 and args['ap'][5] == 23
+        out.append('filter_by_analysis_period:' + ('continuous-slice' if cont else 'by-moys'))
+        if cont and wrapped:
+            out.append('filter_by_analysis_period:two-slices(end_ind<=st_ind)')
+    elif op == 'filter_keys' and cls == 'hc':
+        out.append('filter_by_moys:' + ('reversed-index' if wrapped else 'plain-index'))
+    elif op == 'to_unit':
+        out.append('to_unit:' + ('identity' if UNITS[args['u']] == spec['unit'] else 'converted'))
+    elif op in ('to_ip', 'to_si'):
+        ident = (op == 'to_ip') == (spec['unit'] == 'F')
+        out.append(op + ':' + ('identity' if ident else 'converted'))
+    elif op == 'aligned':
+        out.append('aligned:value-' + ('list' if isinstance(args['v'], list) else 'number'))
+        out.append('aligned:mutable=%s' % args.get('m'))
+        out.append('aligned:unit-' + ('given' if args.get('u') is not None else 'default'))
+    elif op in ('dup', 'copy', 'to_immutable', 'to_mutable'):
+        out.append('%s:%s' % (op, 'from-mutable' if spec['mutable'] else 'from-immutable(tuple kept)'))
+    elif op in ('add', 'sub', 'mul', 'div', 'cfa'):
+        out.append('%s:%s/%s' % ('arith' if op != 'cfa' else 'cfa', 'collection' if 'c' in args else 'number',
+                                 'continuous-override' if cls == 'hc' else 'base'))
+    elif op == 'interp_holes':
+        out.append('interpolate_holes:' + ('continuous(duplicate)' if cls == 'hc' else 'discontinuous'))
+    return out
+
+
+def _r4_cases(ctx):
+    """Round 4 strata that every run must contain (not left to sampling): every deriving operation on
+    sources whose validated flag is already set (each class that has the flag), identity unit conversions
+    on every class, sub-hourly aggregation with metadata, reversed periods, container types, returned
+    containers."""
+    rng = ctx.rng
+    small = ctx.quick and not ctx.searching
+    val = {'k': 'd', 'op': 'validate', 'args': {}}
+    imm = {'k': 'd', 'op': 'to_immutable', 'args': {}}
+    for cls in ('hd', 'daily', 'monthly', 'mph', 'hc'):
+        for mutable in (True, False):
+            base = gen_spec(rng, cls, mutable, hourly_days=1, energy=False)
+            base['meta'] = {'k1': 1, 'k2': [1, 2]}
+            # (e) hidden flag: the source was validated before
+            chains = _past_chains(cls, mutable, base['ap'][6])
+            ops = [o for o in SWEEP_OPS if o not in ENERGY_OPS]
+            if small:
+                ops = ['validate', 'dup', 'to_mutable', 'to_immutable'] + rng.sample(ops, 5)
+            for op in ops:
+                spec = copy.deepcopy(base)
+                spec['pre'] = [val] if mutable else [val, imm]
+                if op not in ('validate', 'dup') and rng.random() < 0.5:
+                    spec['pre'] = copy.deepcopy(rng.choice(chains))
+                    for st in spec['pre']:
+                        if st['op'] == 'filter_ap':
+                            st['args']['ap'] = list(spec['ap'])
+                sib = _twin(spec, vals=[(int(v) % 7) + 1 for v in spec['vals']], meta={'k2': [5]})
+                args = _derive_args(rng, op, spec, 2)
+                case = {'build': [spec, sib], 'derive': {'on': 0, 'op': op, 'args': args}}
+                if not ctx.searching:
+                    case['mutators'] = sorted(rng.sample(range(N_PLAIN_MUTATORS), 4 if small else 8)
+                                              + rng.sample(REFUSED_IDX, 1))
+                for b in _branches(op, args, spec):
+                    ctx.count('branch:' + b)
+                ctx.count('r4:past')
+                yield 'derive', case
+            # (g) conversions that leave the numbers as they are
+            for unit, op, a in (('C', 'to_si', {}), ('F', 'to_ip', {}), ('K', 'to_si', {}), ('C', 'to_unit', {'u': 0}),
+                                ('F', 'to_unit', {'u': 1}), ('K', 'to_unit', {'u': 2})):
+                spec = _twin(base, unit=unit)
+                for b in _branches(op, a, spec):
+                    ctx.count('branch:' + b)
+                ctx.count('r4:identity-conversion')
+                yield 'derive', {'build': [spec], 'derive': {'on': 0, 'op': op, 'args': dict(a)},
+                                 'mutators': [0, 4, 5, 6, 7, 10] if not ctx.searching else None}
+            # (j) sub-hourly aggregation / reversed periods, metadata not empty
+            if cls in ('hd', 'hc'):
+                for ts in (rng.sample([2, 3, 4, 6, 12], 2) if small else [2, 3, 4, 5, 6, 10, 12]):
+                    spec = _rare_spec(rng, cls, mutable, 'ts')
+                    full = [h * 60 + k * (60 // ts) for h in range(24) for k in range(ts)]
+                    spec.update(ap=[1, 1, 0, 1, 1, 23, ts, 0],
+                                dts=full if cls == 'hc' else sorted(rng.sample(full, 9)))
+                    spec['vals'] = [rng.randint(-5, 30) for _ in spec['dts']]
+                    for iv in ('daily', 'monthly', 'mph'):
+                        a = {'iv': iv, 'fn': rng.choice(['average', 'total', 'percentile']), 'p': 50}
+                        for b in _branches('agg', a, spec):
+                            ctx.count('branch:' + b)
+                        ctx.count('r4:sub-hourly-aggregation')
+                        yield 'derive', {'build': [copy.deepcopy(spec)], 'derive': {'on': 0, 'op': 'agg', 'args': a},
+                                         'mutators': [7, 8, 9, 10] if not ctx.searching else None}
+            wspec = _rare_spec(rng, cls, mutable, 'wrap')
+            for op in (['filter_keys', 'filter_ap', 'validate'] + rng.sample(['agg', 'dup', 'aligned', 'cull',
+                                                                              'filter_pattern', 'to_immutable'], 2)
+                       if small else [o for o in SWEEP_OPS if o not in ENERGY_OPS]):
+                spec = copy.deepcopy(wspec)
+                args = _derive_args(rng, op, spec, 2)
+                for b in _branches(op, args, spec):
+                    ctx.count('branch:' + b)
+                ctx.count('r4:wrapped-period')
+                yield 'derive', {'build': [spec, _twin(spec, meta={'k2': [5]})],
+                                 'derive': {'on': 0, 'op': op, 'args': args},
+                                 'mutators': sorted(rng.sample(range(N_PLAIN_MUTATORS), 4)) if not ctx.searching
+                                 else None}
+            # (f) / (i) container types and one-shot iterables, for every way a sequence gets in
+            spec = copy.deepcopy(base)
+            for via in ('ctor', 'setter', 'aligned'):
+                if via == 'setter' and not mutable:
+                    continue
+                for vs in VSHAPES:
+                    ds = rng.choice(DSHAPES) if via == 'ctor' else 'list'
+                    ctx.count('shape:%s/values=%s' % (via, vs))
+                    yield 'shape', {'spec': spec, 'via': via, 'vshape': vs, 'dshape': ds}
+            for ds in DSHAPES:
+                ctx.count('shape:ctor/datetimes=%s' % ds)
+                yield 'shape', {'spec': spec, 'via': 'ctor', 'vshape': rng.choice(['list', 'tuple']), 'dshape': ds}
+            for get in RETURNED_GETTERS:
+                ctx.count('returned:' + get)
+                yield 'returned', {'spec': spec, 'get': get}
+    for vs, same in ((('list', True), ('tuple', True), ('deque', False)) if small else
+                     [(v, sm) for v in ('list', 'tuple', 'deque', 'array') for sm in (True, False)]):
+        for ts, leap in (((1, 0),) if small else ((1, 0), (2, 0), (1, 1))):
+            ctx.count('shape:wea_annual/values=%s%s' % (vs, '/one-container-twice' if same else ''))
+            yield 'shape', {'spec': {'cls': 'hc', 'mutable': True, 'ap': [1, 1, 0, 12, 31, 23, ts, leap], 'vals': []},
+                            'via': 'wea_annual', 'vshape': vs, 'same': same}
+    for obj, get in RETURNED_OTHER:
+        ctx.count('returned:%s.%s' % (obj, get))
+        yield 'returned', {'obj': obj, 'get': get}
+    yield 'misc', {'what': 'epw_dict_round_trip'}
 
 
 SWEEP_OPS = [o for o in DERIVE_OPS if o != 'cfa_ref'] + ['copy', 'hourlyplot', 'monthlychart',
@@ -2449,9 +3031,12 @@ def _sweep_cases(ctx):
                         if op in ENERGY_OPS:
                             continue
                         spec = copy.deepcopy(rbase)
-                        sib = _twin(spec, vals=[(v % 7) + 1 for v in spec['vals']], mutable=rng.random() < 0.5,
+                        sib = _twin(spec, vals=[(int(v) % 7) + 1 for v in spec['vals']],
+                                    mutable=spec['mutable'] if kind == 'past' else rng.random() < 0.5,
                                     meta={} if kind == 'empty-meta' else {'k2': [5]})
                         args = _derive_args(rng, op, spec, 2)
+                        for b in _branches(op, args, spec):
+                            ctx.count('branch:' + b)
                         if kind == 'zeros' and 's' in args:
                             args['s'] = 0                       # falsy scalar operand
                         if kind == 'zeros' and op == 'aligned':
@@ -2539,6 +3124,10 @@ FIXED_CORPUS = [
     ('misc', {'what': 'epw_sky_temperature'}),
     ('misc', {'what': 'location_from_dict_args'}),
     ('misc', {'what': 'epw_from_dict_args'}),
+    # round 4: containers handed out by dictionary exports (known findings until the repairs are committed)
+    ('returned', {'spec': _HC24, 'get': 'to_dict'}),
+    ('returned', {'obj': 'epw', 'get': 'to_dict'}),
+    ('misc', {'what': 'epw_dict_round_trip'}),
 ]
 
 
@@ -2577,6 +3166,8 @@ def _oracle_cases(ctx):
     for c in FIXED_CORPUS:
         yield c
     for c in _sweep_cases(ctx):
+        yield c
+    for c in _r4_cases(ctx):
         yield c
     for c in _misc_cases(ctx):
         yield c
@@ -2682,7 +3273,9 @@ def _rarity(case):
 
 def _order_slice(ctx):
     rng = ctx.rng
-    cases = [list(c) for c in FIXED_CORPUS if c[1].get('what') not in ('immutable_metadata_route', 'dict_round_trip')]
+    cases = [list(c) for c in FIXED_CORPUS if c[1].get('what') not in ('immutable_metadata_route', 'dict_round_trip',
+                                                                       'epw_dict_round_trip')
+             and c[0] != 'returned']
     sweep = [list(c) for c in _sweep_cases(_Quiet(ctx))]
     seen = set()
     rng.shuffle(sweep)
@@ -2694,6 +3287,12 @@ def _order_slice(ctx):
         if inp.get('mutators'):
             inp = dict(inp, mutators=sorted(rng.sample(inp['mutators'], 3)))
         cases.append([op, inp])
+    # round 4 strata (without the inputs of the open findings and the year-long Wea lists)
+    r4 = [list(c) for c in _r4_cases(_Quiet(ctx))]
+    r4 = [c for c in r4 if not (c[0] == 'returned' and c[1]['get'] == 'to_dict')
+          and c[1].get('what') != 'epw_dict_round_trip' and c[1].get('via') != 'wea_annual']
+    rng.shuffle(r4)
+    cases.extend(r4[:40])
     for obj, get in REREAD:
         cases.append(['misc', {'what': 'reread', 'obj': obj, 'get': get}])
     for call in WEA_CALLS:
@@ -2800,7 +3399,12 @@ LEVEL_TEXT = ('Machine-checked Lean 4 theorems over an executable heap model (He
               'as they were (C14_refused_preserves), reading steps in any order and number leave every report '
               'unchanged (C14_read_pure), what an unedited object reports does not depend on the history '
               '(C14_history_refines_fresh_partial); on the real objects: derivations asked again, history-free '
-              'twins, refused calls, one-object EPW histories, process-order runs in fresh interpreters.')
+              'twins, refused calls, one-object EPW histories, process-order runs in fresh interpreters. '
+              'Round 4: a deriving operation never returns an existing object whatever the class, flag or past '
+              'of its source (C14_derive_new_object), both branches of validate_analysis_period copy '
+              '(C14_validate_branches), constructors / get_aligned_collection / values setter do not depend on '
+              'the container type of a sequence argument (C14_*_container_independent); on the real objects: '
+              'sources with a past, container types, returned containers, text-made and reversed periods.')
 LEVEL_NOTE = ('Trusted: Lean kernel; axioms propext/Classical.choice/Quot.sound only; the hand model of which cells '
               'each operation allocates/aliases (agreement on generated histories only); payload values of '
               'aggregation/validation/interpolation/Wea-derived collections; two of the 35 EPW fields modelled; '
